@@ -19,6 +19,7 @@ if MODE == "shim":
     _m = shims.load_sketchnu(REPO)
     CM, HH, HLL, HASHES = _m["countmin"], _m["heavyhitters"], _m["hyperloglog"], _m["hashes"]
     np = shims.numpy
+    HELPERS = shims.load_helpers(REPO)
     CALLS = shims.CALLS
     SHM_EVENTS = shims.SHM_EVENTS
 
@@ -46,7 +47,7 @@ else:
     if REPO not in sys.path:
         sys.path.insert(1, REPO)
     import numpy as np
-    from sketchnu import countmin as CM, heavyhitters as HH, hyperloglog as HLL, hashes as HASHES
+    from sketchnu import countmin as CM, heavyhitters as HH, hyperloglog as HLL, hashes as HASHES, helpers as HELPERS
     CALLS = []
     SHM_EVENTS = []
 
